@@ -238,6 +238,9 @@ def run(ctx):
     d11_valid_index_accepted(db, rep)
     d12_const_name_kept(db, rep)
     d13_declared_name_first(db, rep)
+    # a directive number parses to the same value whatever was parsed before it (shared with C14 D20)
+    import importlib as _il15
+    _il15.import_module("rules.c14").errno_cleared_before_judged(db, rep, "D14-ERRNO-CLEARED")
 
     # ---- D4: the synthetic name of an inline literal identifies the literal ----------------------------
     # orc_program_append_str_n finds operands BY NAME.  The name made up for an inline literal must therefore be an
